@@ -1,8 +1,8 @@
 #!/bin/bash
 # quick tier of every check for several seeds (false-alarm hunt): ./harness/runseeds.sh 5 6 7
-cd "$(dirname "$0")/.."
+cd "$(dirname "$0")/.."; mkdir -p out
 if [ -n "$VP_RUN_REPO" ]; then export DARR_REPO=$VP_RUN_REPO; fi
-./check --setup > out_setup.log 2>&1 || { echo "setup failed"; tail -20 out_setup.log; }
+./check --setup > out/setup.log 2>&1 || { echo "setup failed"; tail -20 out/setup.log; }
 for seed in "$@"; do
   for c in C01 C02 C03 C04 C05 C06 C07 C08 C09 C10 C11 C12 C13 C14 C15 C16 C17 C18 C19 C20; do
     ./check $c --tier quick --seed $seed 2>&1 | grep "^\[C\|VIOLATION\|KNOWN"
